@@ -387,7 +387,7 @@ pub fn run(ctx: &mut LaneCtx) {
     ctx.run_sub(
         SubSpec {
             name: "live-hostile",
-            cases: (480, 40_000),
+            cases: (1_200, 40_000),
             rule: "live targets (as C01) with emphasis on hostile values: crash-context rip/rsp and principal address from {0, 1, 4095, 2^47-8, 2^47, 0xffff800000000000, [vsyscall], top of the address space, unmapped, misaligned, inside stacks/mappings}, thread stack pointers in guard pages and holes, non-UTF-8 thread names, all option combinations; oracle = dump returns Ok or Err within 30 s, no panic; non-trivial = at least one hostile value; distinct = hash of case",
             strategy: crate::props::c01::case_strategy(10).boxed(),
             max_shrink_iters: 150,
@@ -398,7 +398,7 @@ pub fn run(ctx: &mut LaneCtx) {
     ctx.run_sub(
         SubSpec {
             name: "dev-rule",
-            cases: (96, 6_000),
+            cases: (160, 6_000),
             rule: "targets mapping 1..4 files that live under /dev/shm (>= 4096 bytes, offset 0, executable or not; content valid ELF with id / valid ELF without id / non-ELF / ELF with unreadable program headers; optionally unlinked) with an inotify watch (IN_OPEN|IN_ACCESS) installed on each after the target finished mapping; oracle = no inotify event during the dump; non-trivial = at least one watched file; distinct = hash of case",
             strategy: (proptest::collection::vec((0u8..4, any::<bool>(), proptest::bool::weighted(0.2)), 1..5), any::<bool>()).prop_map(|(files, with_crash)| DevCase { files, with_crash }).boxed(),
             max_shrink_iters: 100,
@@ -409,7 +409,7 @@ pub fn run(ctx: &mut LaneCtx) {
     ctx.run_sub(
         SubSpec {
             name: "live-pivot-names",
-            cases: (48, 3_000),
+            cases: (96, 3_000),
             rule: "targets that pivot_root into a private tmpfs and map files there, so that the dumper sees bare hostile mapped-file names (/SYSVab, /SYSV00000000 (deleted), /lib.so.1.2.3e-acute4, /dev/x, names with spaces / brackets / invalid UTF-8 / many version components); oracle = dump returns Ok or Err, no panic; every case non-trivial; distinct = hash of case",
             strategy: proptest::collection::vec((0u8..10, any::<bool>()), 1..4).prop_map(|files| PivotCase { files }).boxed(),
             max_shrink_iters: 60,
@@ -432,7 +432,7 @@ pub fn run(ctx: &mut LaneCtx) {
     ctx.run_sub(
         SubSpec {
             name: "dso-direct",
-            cases: (4_000, 400_000),
+            cases: (12_000, 400_000),
             rule: "structure-aware linker data in a shared-memory arena of a live helper process (program headers, PT_LOAD/PT_DYNAMIC, dynamic section, r_debug, link_map chain, names) with corruptions (AT_PHNUM 0/100000/2^61/u64::MAX, PHDR/dynamic/r_debug near the arena end, in PROT_NONE, unmapped, 0, top of address space; PT_LOAD vaddr huge; dynamic without DT_NULL; cyclic / dangling l_next; non-UTF-8 / unterminated / unmapped names) through write_dso_debug_stream; oracle = returns Ok(decodable stream) or Err, no panic, no hang; non-trivial = at least one corruption; distinct = hash of case",
             strategy: dso_strategy().boxed(),
             max_shrink_iters: 600,
